@@ -72,8 +72,42 @@ def bisector_obligations(prefix):
     obs.append(Obligation(prefix + ".bisector.every_candidate_ends_the_loop_or_is_clipped_own_periodic_images_included", P + [Ge(sr, R0)],
                           Or(ret, called), u.label, note="the neighbour index and the cell's own index are independent symbols: equal indices are covered",
                           replay=replay_small_periodic))
-    meta = {"fn": u.label + " / neighbour-loop body", "slice_sha": sha}
+    o_pre, m_pre = build_prefix_obligations(prefix)
+    obs += o_pre
+    meta = {"fn": u.label + " / neighbour-loop body + " + m_pre["fn"], "slice_sha": sha + "+" + m_pre["slice_sha"]}
     return obs, meta
+
+
+def build_prefix_obligations(prefix):
+    """ConvexCell::build from its first statement to the neighbour loop: the loop must run over the candidate sequence minus exactly its first
+    element (the generator itself, unshifted - C17), nothing else filtered out: in particular not the periodic images of the cell's own generator."""
+    u = Unit(CC, "ConvexCell::build")
+    loops = [s_ for s_ in u.fn["body"]["stmts"] if (s_.get("e") or {}).get("k") == "for"]
+    if len(loops) != 1: raise extract.Undecided("lost anchor: the neighbour loop of ConvexCell::build")
+    fl = loops[0]
+    pre = [s_ for s_ in u.fn["body"]["stmts"] if s_["sp"][1] <= fl["sp"][0]]
+    ctx = symex.Ctx(); ctx.resolver = u.resolver(XF)
+    ctx.contracts["ConvexCell::init"] = lambda interp, env, node, args: Struct("ConvexCell", {"loc": args[0], "idx": args[1], "safety_radius": real("sr0")})
+    it = symex.Interp(ctx, u.auto_consts(XF)); it.tolerant = True
+    it.note_params(u.fn)
+    own = Var("own_idx", "Int", "usize")
+    elem = lambda k: symex.Tup([Var("cand%d_idx" % k, "Int", "usize"), option("cand%d_shift" % k, vec("cand%d_shiftv" % k))])
+    nn = symex.IterV("nearest_neighbours", elem)
+    env = symex.Env(ctx, {"loc": vec("loc"), "idx": own, "generators": grid.sym_generators("gp_"), "nearest_neighbours": nn,
+                          "simulation_boundary": Struct("SimulationBoundary", {})}, TRUE, "ConvexCell")
+    if pre: it.exec_block(env, {"k": "block", "stmts": pre, "sp": [pre[0]["sp"][0], pre[-1]["sp"][1]]})
+    it.tolerant = False
+    try:
+        over = it.ev(env, fl["e"]["e"])
+    except symex.Unsupported as e:
+        raise extract.Undecided("the neighbour loop of ConvexCell::build iterates over an expression outside the subset: %s" % e)
+    ok = isinstance(over, symex.IterV) and over.consumed == 1 and not over.adapters
+    what = "not the candidate iterator" if not isinstance(over, symex.IterV) else "consumed %d, adapters %r" % (over.consumed, list(over.adapters))
+    o = Obligation(prefix + ".bisector.loop_runs_over_every_candidate_after_the_first_nothing_else_is_filtered_out", [], Const(bool(ok)), u.label + " / from entry to the neighbour loop",
+                   note="abstract iterator: " + what, replay=replay_small_periodic)
+    # an adapter the evaluator only knows by name may be harmless: such a refutation counts only if it replays on the real code
+    o.havoc = True
+    return [o], {"fn": u.label + " / from entry to the neighbour loop", "slice_sha": extract.sha("".join(extract.text_of(u.tree, s_) for s_ in pre) + extract.text_of(u.tree, fl["e"]["e"]))}
 
 
 def _halfspace(tag):
